@@ -99,6 +99,8 @@ def case(t):
     def level_cap(config):
         return config["epochs"] if use_mra else max_t
 
+    # failures of running trials must not change what the rule allows for the others (C13's "keeps making legal decisions")
+    with_failures = t.chance(1, 4)
     drv = dp.ProtocolDriver(
         sched,
         t,
@@ -109,6 +111,8 @@ def case(t):
         max_steps=t.weighted([(3, 50), (2, 100), (1, 20)]),
         checkpointing=checkpointing,
         time_keeper=tk,
+        allow_fail=with_failures,
+        fail_weight=1,
     )
     bracket_of = {}
     target = {}
@@ -217,6 +221,8 @@ def case(t):
                 if not checkpointing:
                     labels.add("restart-after-resume")
             continue
+        if ev.op == "fail":
+            labels.add("failure")
         if ev.op != "report":
             continue
         tid = ev.trial_id
@@ -273,6 +279,6 @@ SUBCHECKS = {
         "fn": case,
         "quick": 24000,
         "thorough": 500000,
-        "required": ["suggest-with-rung>=2", "promotion", "promotion-from-rung>=2", "pasha-cap-increase", "restart-after-resume", "cost_promotion", "rush_promotion", "per-bracket", "mra"],
+        "required": ["failure", "suggest-with-rung>=2", "promotion", "promotion-from-rung>=2", "pasha-cap-increase", "restart-after-resume", "cost_promotion", "rush_promotion", "per-bracket", "mra"],
     },
 }
